@@ -12,6 +12,7 @@ mod c15;
 mod sm;
 mod smgen;
 mod c13;
+mod c16;
 mod c19;
 mod c20;
 
@@ -96,7 +97,11 @@ fn replay_inputs(p: &PathBuf) -> Vec<Value> {
 
 fn main() {
     // panics of the code under test are caught and reported per case
-    std::panic::set_hook(Box::new(|_| {}));
+    std::panic::set_hook(Box::new(|info| {
+        if let Some(l) = info.location() {
+            *util::LAST_PANIC_LOC.lock().unwrap() = format!("{}:{}", l.file(), l.line());
+        }
+    }));
     let args = parse_args();
     let mut rng = Rng::new(args.seed);
     let mut w = CaseWriter::new(&args.out, &args.prop);
@@ -174,6 +179,20 @@ fn main() {
             header = c19::HEADER;
             ctype = c19::CTYPE;
             runner = c19::RUNNER;
+        }
+        "C16" => {
+            if c16::child_main() {
+                return;
+            }
+            if args.replay.is_none() {
+                inputs.extend(c16::generate(&mut rng, args.n, args.thorough));
+            }
+            for i in &inputs {
+                w.push(c16::run_input(i));
+            }
+            header = c16::HEADER;
+            ctype = c16::CTYPE;
+            runner = c16::RUNNER;
         }
         p => {
             eprintln!("unknown property {}", p);
